@@ -453,6 +453,8 @@ class Point:
                     # exp of a non-zero pure number: transcendental constant, keep as named base
                     pass
             mk = self.canon_mono(m)
+            if any(k_[0] == 'val' and k_[1] == (0, 0) and e_ > 0 for k_, e_ in mk if isinstance(k_, tuple) and len(k_) == 2):
+                continue        # a factor of this monomial is zero at the point (|I| with I pinned to 0, floor(0)): the monomial vanishes, exp gives 1
             if len(mk) == 1 and mk[0][0][0] == 'logval' and mk[0][1] == 1 and ci == 0 and cr.denominator == 1 and not times_i:
                 # exp(k log x) = x^k for integer k
                 try:
@@ -611,6 +613,8 @@ class Point:
         if name == 'log':
             # opaque: keyed by the VALUE of the argument so that equal arguments give equal logs
             return self.opaque(('log', a), real=(a[1] == 0))
+        if name in ('floor', 'ceil') and a == (0, 0):
+            return (0, 0)          # floor(0) = ceil(0) = 0 (a pinned argument); any other value stays uninterpreted
         # uninterpreted function: opaque value keyed by name and argument values
         vals = tuple(memo[t.uid] for t in x.args)
         return self.opaque((name,) + vals, real=all(v[1] == 0 for v in vals))
@@ -886,6 +890,32 @@ def specialize(n, hook, memo=None):
             elif op == 'powi': r = powi(a[0], n.val)
             elif op == 'fn': r = fn(n.val, *a)
             else: raise AnalysisError(op)
+        memo[n.uid] = r
+        return r
+    return s(n)
+
+
+def rewrite(n, hook, memo=None):
+    """bottom-up reconstruction: every rebuilt node is offered to hook(node) -> replacement | None"""
+    memo = {} if memo is None else memo
+
+    def s(n):
+        r = memo.get(n.uid)
+        if r is not None: return r
+        op = n.op
+        if not n.args:
+            r = n
+        else:
+            a = [s(t) for t in n.args]
+            if op == 'add': r = add(*a)
+            elif op == 'mul': r = mul(*a)
+            elif op == 'div': r = div(*a) if not is_const(a[0], 0) else ZERO
+            elif op == 'powi': r = powi(a[0], n.val)
+            elif op == 'fn': r = fn(n.val, *a)
+            elif op == 'cmp': r = cmp(n.val, *a)
+            else: raise AnalysisError(op)
+        h = hook(r)
+        if h is not None: r = h
         memo[n.uid] = r
         return r
     return s(n)
